@@ -542,13 +542,18 @@ def nested_family():
     inners = [['max', [x, y]], ['min', [x, y]], ['abs', x], ['-', ['abs', x], num(1)], ['neg', ['min', [x, y]]],
               ['-', ['max', [x, num(0.5)]], y], ['abs', ['-', x, y]],
               # an operand the ranges prove dominated (and that the compiler prunes) in front of / between the kept ones
-              ['max', [num(-9), x, y]], ['min', [num(9), x, y]], ['max', [x, num(-9), y]], ['min', [x, y, num(9)]]]
+              ['max', [num(-9), x, y]], ['min', [num(9), x, y]], ['max', [x, num(-9), y]], ['min', [x, y, num(9)]],
+              # affine inner terms: the wrappers then act on plain linear expressions
+              x, ['+', x, y], ['-', ['*', num(2), x], y]]
     outers = [lambda e: e, lambda e: ['abs', e], lambda e: ['max', [e, num(0.5)]], lambda e: ['min', [e, num(1)]], lambda e: ['neg', ['abs', e]],
               lambda e: ['*', num(-2), ['abs', e]],
               # sign-changing and scaling wrappers directly above a piecewise block: division and multiplication by
               # negative / positive constants on either side, unary minus
               lambda e: ['/', e, num(-2)], lambda e: ['/', e, num(2)], lambda e: ['*', e, num(-0.5)], lambda e: ['neg', e],
-              lambda e: ['/', ['abs', e], num(-1)]]
+              lambda e: ['/', ['abs', e], num(-1)],
+              # constants spelled as unfolded constant expressions (a substituted named constant: x / (n - 1))
+              lambda e: ['/', e, ['-', num(5), num(1)]], lambda e: ['/', e, ['+', num(2), num(3)]], lambda e: ['*', ['-', num(1), num(3)], e],
+              lambda e: ['/', ['*', num(10), e], ['-', num(4), num(2)]]]
     profs = [pr for pr in PROFILES if pr[0] in ('straddle', 'int', 'mixed', 'signed')]
     out = []
     i = 0
